@@ -111,7 +111,7 @@ def main():
                 res["demo_clean_tail"] = out0[-600:]
         # scratch copy of /verif (with its build output) so Facts.lean regeneration stays private
         shutil.copytree(VERIF, vcopy, symlinks=True,
-                        ignore=shutil.ignore_patterns(".git", "__pycache__", "replays", "seeded"))
+                        ignore=shutil.ignore_patterns(".git", "__pycache__", "replays", "seeded", ".audit_*", ".build.lock"))
         env = wt_env(wt)
         env.pop("PYTHONPATH")
         procs = {}
